@@ -86,90 +86,56 @@ Definition h_target (h : heap) (a : nat) : option ind :=
   end.
 
 (* A model object (reg_lambda_f<i_mep>, reg_lambda_f<team<i_mep>>, or a
-   classifier, which has a reg_lambda_f member `lambda_`) owns one core per
-   member program.  [models] maps the slot names used by a history to the
-   addresses of the cores; [vec] is a std::vector<Model> holding some of the
-   slots, in order. *)
-Record state := { st_heap : heap; st_models : list (option (list nat)); st_vec : list nat }.
+   classifier, which has a reg_lambda_f member `lambda_`) is one heap object:
+   [ind] is what it stores (for a team: the list of member programs, each
+   member core being copied / assigned by the same special member functions
+   through std::vector).  [st_models] maps the slot names used by a history
+   to addresses; [st_vec] is a std::vector<Model> holding some of the slots,
+   in order: relocation changes the address of a slot, not its name. *)
+Record state := { st_heap : heap; st_models : list (option nat); st_vec : list nat }.
 
 Definition init : state := {| st_heap := []; st_models := []; st_vec := [] |}.
 
-Definition model_cores (s : state) (m : nat) : option (list nat) :=
-  match nth_error (st_models s) m with Some (Some cs) => Some cs | _ => None end.
-
-Fixpoint h_new_all (h : heap) (is : list ind) : heap * list nat :=
-  match is with
-  | [] => (h, [])
-  | i :: r => let '(h1, a) := h_new h i in let '(h2, l) := h_new_all h1 r in (h2, a :: l)
-  end.
-
-Fixpoint h_copy_all (p : policy) (h : heap) (cs : list nat) : option (heap * list nat) :=
-  match cs with
-  | [] => Some (h, [])
-  | c :: r =>
-      match h_copy p h c with
-      | Some (h1, a) =>
-          match h_copy_all p h1 r with Some (h2, l) => Some (h2, a :: l) | None => None end
-      | None => None
-      end
-  end.
-
-Fixpoint h_destroy_all (h : heap) (cs : list nat) : option heap :=
-  match cs with
-  | [] => Some h
-  | c :: r => match h_destroy h c with Some h1 => h_destroy_all h1 r | None => None end
-  end.
-
-Fixpoint h_assign_all (p : policy) (h : heap) (ds ss : list nat) : option heap :=
-  match ds, ss with
-  | [], [] => Some h
-  | d :: dr, s :: sr => match h_assign p h d s with Some h1 => h_assign_all p h1 dr sr | None => None end
-  | _, _ => None
-  end.
+Definition model_core (s : state) (m : nat) : option nat :=
+  match nth_error (st_models s) m with Some (Some c) => Some c | _ => None end.
 
 Inductive op :=
-| MNew (is : list ind)      (* construct from an individual / a team *)
+| MNew (i : ind)            (* construct from an individual / a team *)
 | MCopy (src : nat)         (* copy construction into a new slot *)
 | MMove (src : nat)         (* move construction into a new slot, then the moved-from source is deleted *)
-| MAssign (dst src : nat)   (* *dst = *src *)
+| MAssign (dst src : nat)   (* assignment  dst = src *)
 | MDestroy (m : nat)        (* delete *)
 | VPush (src : nat)         (* v.reserve(v.capacity() + 1); v.push_back of src: every element is relocated *)
 | VErase (k : nat).         (* v.erase(v.begin() + k): the tail is shifted by assignment, the last destroyed *)
 
-Definition add_model (s : state) (h : heap) (cs : list nat) : state :=
-  {| st_heap := h; st_models := st_models s ++ [Some cs]; st_vec := st_vec s |}.
+Definition add_model (s : state) (h : heap) (c : nat) : state :=
+  {| st_heap := h; st_models := st_models s ++ [Some c]; st_vec := st_vec s |}.
 
 Definition in_vec (s : state) (m : nat) : bool := existsb (Nat.eqb m) (st_vec s).
 
-(* team storage: std::vector<core>::operator= assigns the common prefix
-   element by element; with equal sizes that is all it does.  With different
-   sizes the standard library destroys / copy-constructs the rest; both paths
-   re-seat, the model takes destroy + copy for that case. *)
+Definition m_copy (p : policy) (s : state) (src : nat) : option state :=
+  match model_core s src with
+  | Some c => match h_copy p (st_heap s) c with
+              | Some (h, a) => Some (add_model s h a)
+              | None => None
+              end
+  | None => None
+  end.
+
 Definition m_assign (p : policy) (s : state) (dst src : nat) : option state :=
-  match model_cores s dst, model_cores s src with
-  | Some ds, Some ss =>
-      if Nat.eqb dst src then Some s
-      else if Nat.eqb (length ds) (length ss) then
-        match h_assign_all p (st_heap s) ds ss with
-        | Some h => Some {| st_heap := h; st_models := st_models s; st_vec := st_vec s |}
-        | None => None
-        end
-      else
-        match h_copy_all p (st_heap s) ss with
-        | Some (h1, cs) =>
-            match h_destroy_all h1 ds with
-            | Some h2 => Some {| st_heap := h2; st_models := set_nth (st_models s) dst (Some cs); st_vec := st_vec s |}
-            | None => None
-            end
-        | None => None
-        end
+  match model_core s dst, model_core s src with
+  | Some cd, Some cs =>
+      match h_assign p (st_heap s) cd cs with
+      | Some h => Some {| st_heap := h; st_models := st_models s; st_vec := st_vec s |}
+      | None => None
+      end
   | _, _ => None
   end.
 
 Definition m_destroy (s : state) (m : nat) : option state :=
-  match model_cores s m with
-  | Some cs =>
-      match h_destroy_all (st_heap s) cs with
+  match model_core s m with
+  | Some c =>
+      match h_destroy (st_heap s) c with
       | Some h => Some {| st_heap := h; st_models := set_nth (st_models s) m None; st_vec := st_vec s |}
       | None => None
       end
@@ -178,12 +144,12 @@ Definition m_destroy (s : state) (m : nat) : option state :=
 
 (* relocation of one vector element: copy-construct in the new storage, destroy the old one *)
 Definition m_relocate (p : policy) (s : state) (m : nat) : option state :=
-  match model_cores s m with
-  | Some cs =>
-      match h_copy_all p (st_heap s) cs with
-      | Some (h1, cs') =>
-          match h_destroy_all h1 cs with
-          | Some h2 => Some {| st_heap := h2; st_models := set_nth (st_models s) m (Some cs'); st_vec := st_vec s |}
+  match model_core s m with
+  | Some c =>
+      match h_copy p (st_heap s) c with
+      | Some (h1, a) =>
+          match h_destroy h1 c with
+          | Some h2 => Some {| st_heap := h2; st_models := set_nth (st_models s) m (Some a); st_vec := st_vec s |}
           | None => None
           end
       | None => None
@@ -206,43 +172,23 @@ Fixpoint m_shift (p : policy) (s : state) (tail : list nat) : option state :=
 
 Definition step (p : policy) (s : state) (o : op) : option state :=
   match o with
-  | MNew is => match is with
-               | [] => None
-               | _ => let '(h, cs) := h_new_all (st_heap s) is in Some (add_model s h cs)
-               end
-  | MCopy src =>
-      match model_cores s src with
-      | Some cs => match h_copy_all p (st_heap s) cs with
-                   | Some (h, cs') => Some (add_model s h cs')
-                   | None => None
-                   end
-      | None => None
-      end
+  | MNew i => let '(h, a) := h_new (st_heap s) i in Some (add_model s h a)
+  | MCopy src => m_copy p s src
   | MMove src =>
-      (* the storage class has no move constructor: the cores are copied
+      (* the storage class has no move constructor: the core is copied
          (re-seated); the moved-from model is then destroyed *)
       if in_vec s src then None else
-      match model_cores s src with
-      | Some cs => match h_copy_all p (st_heap s) cs with
-                   | Some (h, cs') => m_destroy (add_model s h cs') src
-                   | None => None
-                   end
-      | None => None
-      end
+      match m_copy p s src with Some s1 => m_destroy s1 src | None => None end
   | MAssign dst src => m_assign p s dst src
   | MDestroy m => if in_vec s m then None else m_destroy s m
   | VPush src =>
-      (* the new storage is filled from the old elements, then the old ones
-         are destroyed; the pushed value is copied from the (relocated) source *)
+      (* the new storage is filled from the old elements, the old ones are
+         destroyed; the pushed value is copied from the (relocated) source *)
       match m_relocate_all p s (st_vec s) with
       | Some s1 =>
-          match model_cores s1 src with
-          | Some cs => match h_copy_all p (st_heap s1) cs with
-                       | Some (h, cs') =>
-                           Some {| st_heap := h; st_models := st_models s1 ++ [Some cs'];
-                                   st_vec := st_vec s1 ++ [length (st_models s1)] |}
-                       | None => None
-                       end
+          match m_copy p s1 src with
+          | Some s2 => Some {| st_heap := st_heap s2; st_models := st_models s2;
+                               st_vec := st_vec s2 ++ [length (st_models s1)] |}
           | None => None
           end
       | None => None
@@ -269,34 +215,40 @@ Fixpoint run_ops (p : policy) (s : state) (os : list op) : option state :=
   | o :: r => match step p s o with Some s1 => run_ops p s1 r | None => None end
   end.
 
-(* the programs a model object runs: one per member; [None] as soon as one
-   interpreter designates a dead object *)
-Fixpoint targets (h : heap) (cs : list nat) : option (list ind) :=
-  match cs with
-  | [] => Some []
-  | c :: r => match h_target h c, targets h r with
-              | Some i, Some l => Some (i :: l)
-              | _, _ => None
-              end
-  end.
-
-Definition model_programs (s : state) (m : nat) : option (list ind) :=
-  match model_cores s m with Some cs => targets (st_heap s) cs | None => None end.
+(* what the model in slot [m] runs when asked for a prediction: the
+   individual its interpreter designates; [None] = the slot is dead or the
+   interpreter designates a destroyed object *)
+Definition model_program (s : state) (m : nat) : option ind :=
+  match model_core s m with Some c => h_target (st_heap s) c | None => None end.
 
 (** ** value semantics (the specification the object model refines):
-    a model is just the list of its programs, copies duplicate values *)
-Record vstate := { v_models : list (option (list ind)); v_vec : list nat }.
+    a model is just the value it stores, copies duplicate values *)
+Record vstate := { v_models : list (option ind); v_vec : list nat }.
 Definition vinit : vstate := {| v_models := []; v_vec := [] |}.
-Definition v_get (s : vstate) (m : nat) : option (list ind) :=
+Definition v_get (s : vstate) (m : nat) : option ind :=
   match nth_error (v_models s) m with Some (Some l) => Some l | _ => None end.
+
+Definition v_assign (s : vstate) (dst src : nat) : option vstate :=
+  match v_get s dst, v_get s src with
+  | Some _, Some l => Some {| v_models := set_nth (v_models s) dst (Some l); v_vec := v_vec s |}
+  | _, _ => None
+  end.
+
+Definition v_destroy (s : vstate) (m : nat) : option vstate :=
+  match v_get s m with
+  | Some _ => Some {| v_models := set_nth (v_models s) m None; v_vec := v_vec s |}
+  | None => None
+  end.
+
+Definition v_copy (s : vstate) (src : nat) : option vstate :=
+  match v_get s src with
+  | Some l => Some {| v_models := v_models s ++ [Some l]; v_vec := v_vec s |}
+  | None => None
+  end.
 
 Fixpoint v_shift (s : vstate) (tail : list nat) : option vstate :=
   match tail with
-  | a :: ((b :: _) as r) =>
-      match v_get s a, v_get s b with
-      | Some _, Some lb => v_shift {| v_models := set_nth (v_models s) a (Some lb); v_vec := v_vec s |} r
-      | _, _ => None
-      end
+  | a :: ((b :: _) as r) => match v_assign s a b with Some s1 => v_shift s1 r | None => None end
   | _ => Some s
   end.
 
@@ -305,46 +257,26 @@ Definition all_live (s : vstate) (ms : list nat) : bool :=
 
 Definition vstep (s : vstate) (o : op) : option vstate :=
   match o with
-  | MNew is => match is with [] => None
-               | _ => Some {| v_models := v_models s ++ [Some is]; v_vec := v_vec s |} end
-  | MCopy src =>
-      match v_get s src with
-      | Some l => Some {| v_models := v_models s ++ [Some l]; v_vec := v_vec s |}
-      | None => None
-      end
+  | MNew i => Some {| v_models := v_models s ++ [Some i]; v_vec := v_vec s |}
+  | MCopy src => v_copy s src
   | MMove src =>
       if existsb (Nat.eqb src) (v_vec s) then None else
-      match v_get s src with
-      | Some l => Some {| v_models := set_nth (v_models s ++ [Some l]) src None; v_vec := v_vec s |}
+      match v_copy s src with Some s1 => v_destroy s1 src | None => None end
+  | MAssign dst src => v_assign s dst src
+  | MDestroy m => if existsb (Nat.eqb m) (v_vec s) then None else v_destroy s m
+  | VPush src =>
+      match v_copy s src with
+      | Some s1 => Some {| v_models := v_models s1; v_vec := v_vec s1 ++ [length (v_models s)] |}
       | None => None
       end
-  | MAssign dst src =>
-      match v_get s dst, v_get s src with
-      | Some _, Some l => Some {| v_models := set_nth (v_models s) dst (Some l); v_vec := v_vec s |}
-      | _, _ => None
-      end
-  | MDestroy m =>
-      if existsb (Nat.eqb m) (v_vec s) then None
-      else match v_get s m with
-           | Some _ => Some {| v_models := set_nth (v_models s) m None; v_vec := v_vec s |}
-           | None => None
-           end
-  | VPush src =>
-      if all_live s (v_vec s) then
-        match v_get s src with
-        | Some l => Some {| v_models := v_models s ++ [Some l]; v_vec := v_vec s ++ [length (v_models s)] |}
-        | None => None
-        end
-      else None
   | VErase k =>
       match skipn k (v_vec s) with
       | [] => None
       | tail =>
           match v_shift s tail with
           | Some s1 =>
-              match v_get s1 (last tail O) with
-              | Some _ => Some {| v_models := set_nth (v_models s1) (last tail O) None;
-                                  v_vec := removelast (v_vec s1) |}
+              match v_destroy s1 (last tail O) with
+              | Some s2 => Some {| v_models := v_models s2; v_vec := removelast (v_vec s2) |}
               | None => None
               end
           | None => None
@@ -357,6 +289,10 @@ Fixpoint vrun (s : vstate) (os : list op) : option vstate :=
   | [] => Some s
   | o :: r => match vstep s o with Some s1 => vrun s1 r | None => None end
   end.
+
+(* the slots held by the vector are alive and distinct (what a history may assume) *)
+Definition vec_ok (s : vstate) : bool :=
+  all_live s (v_vec s).
 
 End Heap.
 
